@@ -1,11 +1,29 @@
 import Driver.Util
 import Driver.Langid
+import Driver.Pipeline
+import Driver.Context
+import Driver.Router
 open Lean Driver
 
 def dispatch (j : Json) : R Json := do
   let op ← strF j "op"
   match op with
   | "langid.filter" => opLangidFilter j
+  | "pipeline.run" => opPipelineRun j
+  | "parse.new" => opParseNew j
+  | "range.new" => opRangeNew j
+  | "key.new" => opKeyNew j
+  | "config.new" => opConfigNew j
+  | "ctx.resolve" => opCtxResolve j
+  | "ctx.ops" => opCtxOps j
+  | "router.locale" => opRouterLocale j
+  | "router.new_path" => opRouterNewPath j
+  | "router.switch_seq" => opRouterSwitchSeq j
+  | "router.roundtrip" => opRouterRoundtrip j
+  | "router.match" => opRouterMatch j
+  | "router.construct" => opRouterConstruct j
+  | "router.localize" => opRouterLocalize j
+  | "router.path_builder" => opRouterPathBuilder j
   | _ => .error s!"unknown op {op}"
 
 def handle (line : String) : String :=
